@@ -51,35 +51,17 @@ directive or instruction — with `more` tokens following — is read back by `d
 statement, positioned at its first token, leaving `more`. -/
 theorem stmt_roundtrip (lo : LexOut) (ev : ElemVal) (hwf : ev.wf) (first : Token) (body more : List Token)
     (hts : (first :: body).map (·.val) = Render.elemVal ev) :
-    element lo first (body ++ more) = .ok (⟨first.line, first.col, ev⟩, more) := by
-  cases ev with
-  | label name =>
-    simp only [Render.elemVal, List.map_cons] at hts
-    obtain ⟨hf, hb⟩ := List.cons.inj hts
-    obtain ⟨lm, b', rfl, hlm, hn⟩ := exists_of_map_eq_cons hb
-    rw [map_eq_nil' hn]
-    exact label_ok lo name first lm more hf hlm
-  | directive name as =>
-    simp only [Render.elemVal, List.map_cons] at hts
-    obtain ⟨hf, hb⟩ := List.cons.inj hts
-    obtain ⟨tn, b1, rfl, hn, hb1⟩ := exists_of_map_eq_cons hb
-    obtain ⟨ta, b2, rfl, hta, hb2⟩ := exists_of_map_eq_append hb1
-    obtain ⟨tt, b3, rfl, htt, hnil⟩ := exists_of_map_eq_cons hb2
-    rw [map_eq_nil' hnil]
-    have := directive_ok lo name (PArgs.ofArgs as) (wf_ofArgs as hwf.2) first tn tt ta more hf hn
-      (by rw [pargs_ofArgs]; exact hta) htt
-    rw [erase_ofArgs] at this
-    simpa using this
-  | instruction name as =>
-    simp only [Render.elemVal, List.map_cons] at hts
-    obtain ⟨hf, hb⟩ := List.cons.inj hts
-    obtain ⟨ta, b2, rfl, hta, hb2⟩ := exists_of_map_eq_append hb
-    obtain ⟨tt, b3, rfl, htt, hnil⟩ := exists_of_map_eq_cons hb2
-    rw [map_eq_nil' hnil]
-    have := instruction_ok lo name (PArgs.ofArgs as) (wf_ofArgs as hwf.2) first tt ta more hf
-      (by rw [pargs_ofArgs]; exact hta) htt
-    rw [erase_ofArgs] at this
-    simpa using this
+    element lo first (body ++ more) = .ok (⟨first.line, first.col, ev⟩, more) :=
+  element_render lo ev hwf first body more hts
+
+/-- C09.program_roundtrip  A whole file: the statements of a rendered program (any number of labels,
+directives and instructions, each given by its kind/name/arguments, its first token and its remaining
+tokens) are read back by the `Parser` iterator as exactly those statements, in order, each positioned
+at its first token, with no error. -/
+theorem program_roundtrip (prog : List (ElemVal × Token × List Token))
+    (h : ∀ x ∈ prog, x.1.wf ∧ (x.2.1 :: x.2.2).map (·.val) = Render.elemVal x.1) (endLine endCol : Nat) :
+    all ⟨progToks prog, none, endLine, endCol⟩ = .done (progElems prog) none :=
+  allLoop_render _ rfl prog h _ (Nat.lt_succ_self _)
 
 /-- … and with redundant parentheses anywhere in the arguments -/
 theorem stmt_roundtrip_parens (lo : LexOut) (name : Bytes) (as : PArgs) (hwf : as.wf) (first tt : Token)
